@@ -171,6 +171,22 @@ def run(ctx):
                         continue
                     num = float(mnum.group(1))
                     unit = mnum.group(2)
+                    # the specifier grammar: `%.N` fixes the number of decimals; a blank in the specifier puts one blank
+                    # between number and unit, no blank means none
+                    mspec = re.match(r"^(?:%\.(\d+))?(\s?)(\w*)$", spec)
+                    if mspec and unit:
+                        want_space = mspec.group(2) != ""
+                        has_space = " " in text
+                        if want_space != has_space:
+                            ctx.oracle_fail("the blank between number and unit does not follow the specifier",
+                                            {"size": size, "spec": spec, "level": "in-process format_filesize"}, detail={"text": text})
+                    # (whole bytes are printed without decimals whatever N is)
+                    if mspec and mspec.group(1) is not None and int(mspec.group(1)) <= 15 and unit not in ("", "B"):
+                        dec = len(mnum.group(1).split(".")[1]) if "." in mnum.group(1) else 0
+                        # (a value that is a whole number of units is printed without decimals)
+                        if dec not in (0, int(mspec.group(1))):
+                            ctx.oracle_fail("the number of decimals does not follow `%.N`",
+                                            {"size": size, "spec": spec, "level": "in-process format_filesize"}, detail={"text": text})
                     decimal = "d" in spec.split(" ")[-1] and not spec.endswith("b") or unit in ("kB", "KB") and False
                     scale = {"": 0, "B": 0, "K": 1, "KB": 1, "KiB": 1, "M": 2, "MB": 2, "MiB": 2, "G": 3, "GB": 3, "GiB": 3,
                              "T": 4, "TB": 4, "TiB": 4, "P": 5, "PB": 5, "PiB": 5, "E": 6, "EB": 6, "EiB": 6}.get(unit)
